@@ -11,6 +11,7 @@ from harness.props.c04 import compare_factor
 OBLIGATIONS = [
     "PgmVerif.C01_ve_any_order", "PgmVerif.C01_order_irrelevant", "PgmVerif.C01_elim_step",
     "PgmVerif.C01_sum_swap", "PgmVerif.C01_virtual_evidence", "PgmVerif.C01_barren_leaf",
+    "PgmVerif.C01_likelihood_scale",
 ]
 PARTIAL = ["removal of d-separated nodes before elimination (needs the global Markov property) is decided by correspondence: "
            "implementation with pruning vs specification without",
